@@ -3,7 +3,7 @@ import os, sys
 import vlib, proglib, crashlib
 import importlib
 
-PROP_FILES = ["Properties_C19.v"]
+PROP_FILES = ["Properties_C19.v", "Properties_reader.v"]
 
 
 def closed_case(rng, tier):
